@@ -131,6 +131,11 @@ size_t varintPFOREncode(uint8_t *dst, const uint64_t *values, uint32_t count,
 
     /* Compute metadata */
     varintPFORComputeThreshold(values, count, threshold, meta);
+    if (meta->count != count) {
+        /* Analysis ran out of memory (metadata zeroed): report failure rather
+         * than encoding with a zero width */
+        return 0;
+    }
 
     /* Write header: min, width, count */
     dst += varintTaggedPut64(dst, meta->min);
@@ -149,9 +154,9 @@ size_t varintPFOREncode(uint8_t *dst, const uint64_t *values, uint32_t count,
     if (meta->exceptionCount > 0) {
         exceptions = malloc(meta->exceptionCount * sizeof(Exception));
         if (!exceptions) {
-            /* Out of memory - fall back to encoding without exception tracking
-             * This will still produce valid output, just not optimal */
-            meta->exceptionCount = 0;
+            /* Out of memory: without the exception list the outliers would be
+             * truncated to the frame width, so report failure */
+            return 0;
         }
     }
 
